@@ -1,0 +1,17 @@
+//go:build verif
+
+package trafficrouting
+
+import (
+	"k8s.io/apimachinery/pkg/runtime"
+	"k8s.io/client-go/tools/record"
+	"sigs.k8s.io/controller-runtime/pkg/client"
+
+	"github.com/openkruise/rollouts/pkg/trafficrouting"
+)
+
+// VerifNewReconciler builds a TrafficRoutingReconciler the way SetupWithManager does, from explicit parts
+// (verification harness only; compiled with -tags verif).
+func VerifNewReconciler(cli client.Client, scheme *runtime.Scheme, recorder record.EventRecorder) *TrafficRoutingReconciler {
+	return &TrafficRoutingReconciler{Client: cli, Scheme: scheme, Recorder: recorder, trafficRoutingManager: trafficrouting.NewTrafficRoutingManager(cli)}
+}
